@@ -22,8 +22,11 @@ import (
 
 	"cuelang.org/go/cue"
 	"cuelang.org/go/cue/ast"
+	cuebuild "cuelang.org/go/cue/build"
 	"cuelang.org/go/cue/cuecontext"
+	"cuelang.org/go/cue/errors"
 	"cuelang.org/go/cue/format"
+	"cuelang.org/go/cue/parser"
 	"cuelang.org/go/encoding/yaml"
 	"cuelang.org/go/verifsim/sim"
 )
@@ -137,6 +140,9 @@ f23_S: {#Base23_S, id_S: "i", labels_S: app_S: "x", extra_S: len(labels_S)}`,
 	/*28*/ `f28_S: {lo_S: hi_S - 100, hi_S: lo_S + 100, hi_S: 200}`,
 	/*29*/ `f29_S: {d_S: e_S - 1, e_S: 1 + d_S, e_S: *2 | 0}`,
 	/*30*/ `f30_S: {x_S: {if y_S.v_S > 1 {w_S: 1}}, y_S: {v_S: 2, if x_S.w_S != _|_ {u_S: 3}}, z_S: {for k, v in y_S {"\(k)": v}}}`,
+	// conjunctions of bounds and validators in unsorted order, erroneous fields next to good ones
+	/*31*/ `f31_S: {a_S: <10 & >=0 & int, b_S: !="x" & =~"^a" & string, c_S: <=5 & >2 & !=3, d_S: a_S & c_S}`,
+	/*32*/ `f32_S: {bad_S: 1 & 2, s_S: "x" & int, l_S: [1, 2] & [1, 3], ok_S: bad_S | 7, n_S: {m_S: bad_S}}`,
 }
 
 // program imports only the builtin packages its fragments use, so that the
@@ -162,11 +168,12 @@ var snippetPaths = [][]string{
 	{"", "spec_S", "spec_S.replicas_S"}, {"", "s_S"}, {""}, {"", "have_S"}, {"", "b_S"}, {""}, {"", "list_S", "sum_S"}, {"", "b_S"}, {"", "ok_S"}, {"", "u_S"},
 	{"", "u_S", "w_S", "u_S.va_S"}, {"", "sw_S", "e_S", "e_S.p_S"}, {"", "l_S"}, {"", "labels_S", "extra_S"}, {"", "out_S"}, {"", "addr_S", "tags_S", "port_S"}, {"", "b_S", "f_S"}, {"", "l_S", "m_S", "j_S"},
 	{"", "lo_S"}, {"", "d_S"}, {"", "y_S", "z_S"},
+	{"", "a_S", "c_S", "d_S"}, {"", "bad_S", "l_S", "n_S"},
 }
 
 var opKinds = []string{"lookup", "fields", "fields-all", "walk", "unify", "unify-accept", "fill", "fill-value", "validate", "validate-concrete", "default", "eval",
 	"syntax", "syntax-final", "syntax-all", "decode", "json", "yaml", "equals", "subsume", "expr", "refpath", "allows", "kind", "len", "attrs", "compile", "encode", "encode-type",
-	"list", "exists-concrete", "string-int", "buildexpr", "validator-eq", "validator-eq", "decode-ci", "decode-ci", "fresh-eval", "fresh-eval"}
+	"list", "exists-concrete", "string-int", "buildexpr", "validator-eq", "validator-eq", "decode-ci", "decode-ci", "fresh-eval", "fresh-eval", "build-file", "build-instance", "expr-syntax", "err-format"}
 
 // rare branches where a badly placed preemption matters most
 var hotSites = []string{"runtime.getKey:upgrade", "runtime.LoadBuiltin:before-lock", "cue.cachedTypeFields:miss", "convert.astFromGoType:miss",
@@ -264,6 +271,8 @@ type env struct {
 	vals []cue.Value
 	sfx  string
 	src  string // the program text
+	small string // a small file that build-file / build-instance calls parse and build (each call its own AST:
+	// building resolves identifiers in place, so an *ast.File is not a read-only input)
 
 	// values compiled by "validator-eq" calls, by builtin package: every such value of one
 	// context must be equal to every other, whichever goroutine loaded the package first
@@ -284,6 +293,7 @@ func build(c *Case) *env {
 	ctx := cuecontext.New()
 	root := ctx.CompileString(program(c), cue.Filename("prog.cue"))
 	e := &env{ctx: ctx, sfx: c.Suffix, src: program(c)}
+	e.small = fmt.Sprintf("import \"strings\"\nbf_%s: {up_%s: strings.ToUpper(\"q\"), n_%s: 1 + 2, #D_%s: {z_%s: int}, d_%s: #D_%s & {z_%s: 3}}\n", c.Suffix, c.Suffix, c.Suffix, c.Suffix, c.Suffix, c.Suffix, c.Suffix, c.Suffix)
 	first := fmt.Sprintf("f%d_%s", c.Snippets[0], c.Suffix)
 	extra := ctx.CompileString(fmt.Sprintf("extra_%s: {e_%s: 1}\n%s: _", c.Suffix, c.Suffix, first))
 	e.vals = []cue.Value{
@@ -450,6 +460,23 @@ func doOp(e *env, op Op) (res string) {
 			fmt.Fprintf(&b, " [%s]", show(a))
 		}
 		return b.String()
+	case "expr-syntax":
+		o, args := at.Expr()
+		var b strings.Builder
+		fmt.Fprintf(&b, "%v", o)
+		for _, a := range args {
+			fmt.Fprintf(&b, " [%s | %s]", synt(a, cue.Raw()), synt(a))
+		}
+		return b.String()
+	case "err-format":
+		err := at.Err()
+		if err == nil {
+			err = at.Validate(cue.Concrete(true))
+		}
+		if err == nil {
+			return "no error"
+		}
+		return fmt.Sprint(err) + " DETAILS " + errors.Details(err, nil) + fmt.Sprint(len(errors.Errors(err)))
 	case "refpath":
 		r, p := at.ReferencePath()
 		return fmt.Sprintf("%v %s", r.Exists(), p)
@@ -473,6 +500,20 @@ func doOp(e *env, op Op) (res string) {
 		return show(e.ctx.Encode(goT{A: op.Arg, D: &goT{A: 1}}))
 	case "encode-type":
 		return show(e.ctx.EncodeType(goT{}))
+	case "build-file":
+		f, err := parser.ParseFile("shared.cue", e.small)
+		if err != nil {
+			return "ERR " + err.Error()
+		}
+		return show(e.ctx.BuildFile(f))
+	case "build-instance":
+		f, err := parser.ParseFile("inst.cue", strings.ReplaceAll(e.small, "bf_", "bi_"))
+		if err != nil {
+			return "ERR " + err.Error()
+		}
+		inst := cuebuild.NewContext().NewInstance("", nil)
+		inst.AddSyntax(f)
+		return show(e.ctx.BuildInstance(inst))
 	case "fresh-eval":
 		// a context of its own, created and used inside this call: values of different contexts do not interfere
 		w := cuecontext.New().CompileString(e.src)
